@@ -13,4 +13,4 @@ git apply $D/out/patch.diff
 echo "== our checks on /repo with the change"
 cd /repo && git apply $D/out/patch.diff || { echo "patch does not apply to /repo"; exit 2; }
 cd /verif; for c in "$@"; do ./check $c --tier quick 2>&1 | grep -E "VIOLATION|KNOWN|rc="; done
-cd /repo && git checkout -- . ; git status --short | grep -v "^??"; cd /verif && git checkout -- evidence/ 2>/dev/null
+cd /repo && git checkout -- . ; git status --short | grep -v "^??"; cd /verif && git checkout -- evidence/ lean/MW/Gen/ 2>/dev/null
